@@ -124,7 +124,7 @@ def main():
         "setup_cmd": "./check --build",
         "hooks": {
             "guard": "verif",
-            "enable": "go build -tags verif -overlay <map>: /verif/overlay/varlink_whitebox.go is injected as /repo/varlink/zz_verif_whitebox.go at build time; nothing is committed into /repo for instrumentation",
+            "enable": "go build -tags verif -overlay <map>: /verif/overlay/varlink_whitebox.go and varlink_whitebox_active.go are injected as /repo/varlink/zz_verif_whitebox.go and zz_verif_whitebox_active.go at build time (if the tree under test has no Service.conncounter, varlink_whitebox_noactive.go is used instead and the monitors run without the connection count); nothing is committed into /repo for instrumentation",
             "baseline_off_cmd": "cd /repo && GOFLAGS=-mod=mod GOPROXY=off GOSUMDB=off GOTOOLCHAIN=local go test -json -vet=off -count=1 -timeout 25m ./...",
             "source_commits": [],
             "add_only": True,
